@@ -30,6 +30,9 @@ USER = [
     ['unit', 'P2', 'pt²', ['derive', ['pt']]],
     ['dtype', 'PI', [['P', -1]], 'pi0', 'i:2'],
     ['unit', 'PI', 'pi7', ['term', [['p7', -1]]]],
+    ['type', 'PQ', 'q0', 'D:0.05'],       # same unit scales, other quantum
+    ['unit', 'PQ', 'q7', ['scaled', 'i:7', 'q0']],
+    ['unit', 'PQ', 'qt', ['term', [['D:0.1', 1], ['q0', 1]]]],
     ['type', 'L', 'l0', None],
     ['unit', 'L', 'l1', ['scaled', 'D:0.3', 'l0']],
     ['dtype', 'PL', [['P', 1], ['L', 1]], None, 'F:1/7'],
@@ -513,6 +516,8 @@ def run_world(p):
         ck = Ck(w, st, mode, name)
         explore_type(ck, 'P', ['p0', 'p7', 'pt'], ['p0', 'p7', 'pt'])
         explore_near_ties(ck, 'P', ['p0', 'p7', 'pt'])
+        explore_type(ck, 'PQ', ['q0', 'q7', 'qt'], ['q0', 'q7', 'qt'],
+                     light=True)
         explore_type(ck, 'P2', w.tm['P2'].units, w.tm['P2'].units)
         explore_type(ck, 'PI', w.tm['PI'].units, w.tm['PI'].units)
         explore_powers(ck, ['p0', 'p7', 'pt', 'pi0', 'pi7'], [2, -1, -2])
